@@ -35,8 +35,8 @@ ASSUMPTIONS = [
     'float arithmetic of mutual_information / weighted_mi / kl_divergence / shannon_entropy agrees with the exact '
     'rational terms of the model within 1e-9 (rounding is not modelled)',
     'not modelled, exercised on the real code only: memory layout (C / Fortran / strided / reversed views), '
-    'weighted_mi\'s trailing np.clip(mi, 0, inf) (the harness applies max(0, .) to the model value) and its default '
-    'state counts (features.max()+1 in the feature dtype, stored as int16; the model uses max+1 as an integer)',
+    'and weighted_mi\'s trailing np.clip(mi, 0, inf) (the harness applies max(0, .) to the model value); its default '
+    'state counts are int(features.max())+1, modelled as the integer max+1 (ids at the dtype maximum are exercised)',
     'state counts passed to the kernel fit a C int (larger values raise OverflowError, modelled and checked)',
 ]
 TRUSTED_EXTRA = ['Model.Sched / Proofs.Sched (interleaving independence, shared with C13/C15)']
@@ -1354,7 +1354,7 @@ def gen_wmi_case(rng, idx=None):
 
 def gen_wmi_edge(rng, k):
     """default n_feature_states with an id equal to the feature dtype's maximum (127 in int8, 255 in uint8):
-    `features.max() + 1` must not wrap"""
+    the default count `int(features.max()) + 1` must not wrap in the feature dtype"""
     dtype, top = [('int8', 127), ('uint8', 255)][k % 2]
     T, F = int(rng.integers(2, 5)), int(rng.integers(1, 3))
     rows = [[int(rng.choice([0, 1, top - 1, top])) for _ in range(F)] for _ in range(T)]
@@ -1411,11 +1411,7 @@ def check_wmi(ctx, case, model):
                 nrm = call_wmi(case, X, w, nfs, True)
             again = call_wmi(case, X, w, nfs, False)        # same argument objects, second call
     except BaseException as e:  # noqa
-        # default state counts are computed in the feature dtype and stored as int16: they wrap for an id equal
-        # to the dtype maximum (known finding)
-        key = 'weighted-default-states-dtype-wrap' if (case.get('edge') and case['nfs'] is None) else None
-        ctx.violation('weighted_mi on a valid weighted sample raised %s: %s' % (type(e).__name__, str(e)[:80]),
-                      case, key=key)
+        ctx.violation('weighted_mi on a valid weighted sample raised %s: %s' % (type(e).__name__, str(e)[:80]), case)
         return
     if snap != (X.tobytes(), repr(w) if not isinstance(w, np.ndarray) else w.tobytes()):
         ctx.violation('weighted_mi modified its arguments', case)
